@@ -185,13 +185,16 @@ class Monitor:
     def _record_push(self, now_ns, ev, emitter):
         t = ns_of(ev.time)
         self.n_pushes += 1
-        em = label(emitter)
-        if self.keep_pushes:
-            self.pushes.append((now_ns, t, em))
         if t < now_ns:
+            what = f"{label(_target_type(ev.target))}.{label(ev.event_type)}"
+            em = f"{label(emitter)}/{what}"      # who handed it to the engine / whose event it is
             self.n_past += 1
             if len(self.past) < 5:
-                self.past.append((now_ns, t, em, f"{label(_target_type(ev.target))}.{label(ev.event_type)}"))
+                self.past.append((now_ns, t, em, what))
+        else:
+            em = label(emitter)
+        if self.keep_pushes:
+            self.pushes.append((now_ns, t, em))
 
     @property
     def timetravel(self) -> int:
@@ -221,7 +224,21 @@ def run_scenario(fam_name, cfg, seed, cap=20000, total_cap=400_000, before_run=N
     fam = family(fam_name)
     res = RunResult()
     res.family = fam_name
-    sim, observers = fam.build(cfg, seed)
+    try:
+        sim, observers = fam.build(cfg, seed)
+    except Exception as e:
+        # the library rejected the configuration (or the builder is wrong): reported, nothing ran
+        import traceback
+
+        where = ""
+        for fr in reversed(traceback.extract_tb(e.__traceback__)):
+            if "/hv/" not in fr.filename:
+                where = f"{fr.filename.rsplit('/', 1)[-1]}:{fr.name}"
+                break
+        res.mon = Monitor(None, cap=cap, total_cap=total_cap)
+        res.error = f"build:{type(e).__name__} {where}".strip()
+        res.stats = {}
+        return res
     if before_run is not None:
         before_run(sim)
     mon = Monitor(sim, cap=cap, total_cap=total_cap, keep_pushes=keep_pushes,
